@@ -78,5 +78,6 @@ def run(ctx, R):
     rvhsem.rule_mem_hsem(ctx, R)
     a64dsread.rule_dsread(ctx, R)
     a64dsread.rule_loopload(ctx, R)
+    a64dsread.rule_dsread_light(ctx, R)
     rvdsread.rule_dsread(ctx, R)
     rvdsread.rule_loopload(ctx, R)
